@@ -49,6 +49,9 @@ impl Operand for Num {
     fn generate(rng: &mut Rng, cfg: &Cfg) -> Self {
         if rng.chance(1, 10) {
             Num(0.0)
+        } else if cfg.f.regime == Regime::R && rng.chance(1, 8) {
+            // a non-zero number at or below machine epsilon is a number like any other
+            Num(*rng.pick(&[1e-17, -1e-17, f64::EPSILON, -f64::EPSILON, 1e-20, 2e-16, -3e-18]))
         } else {
             Num(coef(rng, cfg.f.regime))
         }
@@ -654,7 +657,7 @@ impl Property for C02 {
         let n = tbl.len() as u64 + NARY;
         let idx = k % n;
         let regime = if rng.chance(3, 4) { Regime::D } else { Regime::R };
-        let long = k % 31 == 5;
+        let long = k % 13 == 5;
         let np = if long { 8 + rng.usize_below(40) } else { 1 + rng.usize_below(5) };
         let mut f = FnCfg::new(id_pool(rng, np, true), regime);
         f.dup_positions = false;
